@@ -17,11 +17,17 @@ theorem ENDS_NL_partial (cfg : RCfg) (bs : List Block) :
     renderDoc cfg bs = [] ∨ (renderDoc cfg bs).getLast? = some '\n' :=
   (ends_nl_all cfg).2.1 RState.init bs
 
-/-- The full statement ("ends in a newline") is FALSE of the code and of its model: a document
-that is a single empty list item renders as the empty string. -/
-theorem ENDS_NL_false :
+/-- The empty case is real but confined to trees Marko never builds (a document with no block at
+all, a list with no item): since the repair of the empty list item (flowmark 7e35b65) a document
+that is a single empty item renders as its marker line, not as the empty string. -/
+theorem EMPTY_ITEM_RENDERED :
     renderDoc { wrap := fun t _ _ => t, spacing := .preserve, defs := [] }
-      [.list false 1 ['+'] true [.item []]] = [] := by decide
+      [.list false 1 ['+'] true [.item []]] = "+\n".toList := by decide
+
+/-- every list item writes at least its own line -/
+theorem ITEM_NONEMPTY_OUTPUT (cfg : RCfg) (st : RState) :
+    (renderBlock cfg st (.item [])).1.getLast? = some '\n' := by
+  simp [renderBlock, List.getLast?_append]
 
 /-- NO_ASSERT: the length assertion of `rewrite_text_across_inlines` cannot fire for a
 length-preserving rewrite … -/
